@@ -275,22 +275,24 @@ TARGET = {
     6: {"type": "integer", "multipleOf": 2, "exclusiveMinimum": 0},
     7: {"type": "integer", "multipleOf": 2, "exclusiveMinimum": 0, "if": {"minimum": 3}, "then": {"maximum": 3}},
 }
+W_GHOST = "http://h.invalid/w/ghost.json"       # referenced, but no document is stored or served under it
 W_PROPS = "abcek"
 W_VALS = [0, 1, 4, "x", [0], {"q": 0}]
-UW = [dict((p, v) for p in W_PROPS) for v in W_VALS] + [{"z": 0}]
+UW = [dict((p, v) for p in W_PROPS) for v in W_VALS] + [{"z": 0}, {"g": 0}]
 # the schema-looking values accept strings and nothing else: a hijacked reference shows on any instance
-UW_S = [UW[2], UW[3], UW[6]]
+UW_S = [UW[2], UW[3], UW[6], UW[7]]
 # positions of the two documents at which keywords are inserted (all of them except the root of the root
 # document are the target of a reference), and the nodes that hold a `$ref`
 W_POS = [("root", ()), ("root", ("definitions", "t")), ("root", ("item",)),
          ("other", ()), ("other", ("definitions", "t")), ("other", ("item",))]
-W_REFNODES = [("root", ("properties", p)) for p in W_PROPS + "z"] + [("other", ("definitions", "w"))]
+W_REFNODES = [("root", ("properties", p)) for p in W_PROPS + "zg"] + [("other", ("definitions", "w"))]
 
 
 def make_world(d, with_ids, declared=None):
     """root:  a -> "#item" (plain name = top-level member), b -> "#/definitions/t", c -> other#item,
               e -> other#/definitions/w -> "#/definitions/t" (relative, inside other), k -> other (whole
-              document), z -> "#nowhere" (unresolvable: RefResolutionError before and after)
+              document), z -> "#nowhere", g -> ghost.json (a fragment / a document that does not exist:
+              RefResolutionError before and after — unless an inserted keyword makes something answer to it)
     with_ids: the documents declare their URL with the draft's own id keyword and the root refers to
               `other.json` relatively; otherwise nothing is declared and the references are absolute.
     declared: the `$schema` value every reference target already carries (None: none)."""
@@ -303,7 +305,8 @@ def make_world(d, with_ids, declared=None):
     o = "other.json" if with_ids else W_OTHER
     root = {idk: W_ROOT} if with_ids else {}
     root["properties"] = {"a": {"$ref": "#item"}, "b": {"$ref": "#/definitions/t"}, "c": {"$ref": o + "#item"},
-                          "e": {"$ref": o + "#/definitions/w"}, "k": {"$ref": o}, "z": {"$ref": "#nowhere"}}
+                          "e": {"$ref": o + "#/definitions/w"}, "k": {"$ref": o}, "z": {"$ref": "#nowhere"},
+                          "g": {"$ref": "ghost.json" if with_ids else W_GHOST}}
     root["definitions"] = {"t": t()}
     root["item"] = t()
     other = {idk: W_OTHER} if with_ids else {}
@@ -315,8 +318,8 @@ def make_world(d, with_ids, declared=None):
 
 # identifier values a schema-looking *value* of a foreign keyword carries: a plain name that is a top-level
 # member of both documents, one that is nothing, a pointer that a reference uses, relative and absolute URLs of
-# the documents, and a URL with a plain-name fragment
-W_IDVALS = ["#item", "#nowhere", "#/definitions/t", "other.json", W_OTHER, W_ROOT, W_OTHER + "#item"]
+# the documents, a URL with a plain-name fragment, and the URL that is referenced but names no document
+W_IDVALS = ["#item", "#nowhere", "#/definitions/t", "other.json", W_OTHER, W_ROOT, W_OTHER + "#item", W_GHOST]
 
 
 def schemaish_values():
@@ -341,20 +344,62 @@ NAME_VALUES = {"$anchor": ["item", "nowhere", "t"], "$dynamicAnchor": ["item"], 
                "id": W_IDVALS, "$id": W_IDVALS}
 
 
+# ---- scope worlds: one relative reference text under several base URIs -------------------------------------------
+
+S_URL = "http://h.invalid/s/"
+DOC_URLS = {"other": W_OTHER, "ax": S_URL + "a/x.json", "bx": S_URL + "b/x.json"}
+
+
+def make_scopes(d, with_root_id):
+    """Two subschemas establish two base URIs with the draft's own id keyword; under each, the same reference
+    texts "x.json" and "x.json#/definitions/t" designate different documents (integers under a/, strings
+    under b/).  "#/definitions/t" is used in the root (booleans) and inside a/x.json (integers).
+    with_root_id: the root declares its URL and the nested ids are relative; otherwise they are absolute."""
+    idk = "id" if d <= 4 else "$id"
+    root = {idk: S_URL + "root.json"} if with_root_id else {}
+    pre = "" if with_root_id else S_URL
+
+    def sub(base):
+        return {idk: pre + base, "properties": {"v": {"$ref": "x.json"}, "w": {"$ref": "x.json#/definitions/t"}}}
+    root["definitions"] = {"t": {"type": "boolean"}}
+    root["properties"] = {"a": sub("a/"), "b": sub("b/"), "d": {"$ref": "#/definitions/t"},
+                          "e": {"$ref": S_URL + "a/x.json#/definitions/u"}}
+    ax = {idk: DOC_URLS["ax"]} if with_root_id else {}
+    ax.update({"type": "integer", "definitions": {"t": {"type": "integer"}, "u": {"$ref": "#/definitions/t"}}})
+    bx = {idk: DOC_URLS["bx"]} if with_root_id else {}
+    bx.update({"type": "string", "definitions": {"t": {"type": "string"}}})
+    return {"root": root, "ax": ax, "bx": bx}
+
+
+def _full(v):
+    return {"a": {"v": v, "w": v}, "b": {"v": v, "w": v}, "d": v, "e": v}
+
+
+# one validator sees them in this order: the second base first, then the first, the document-internal text
+# before the root's, then everything in schema order
+US = [{"b": {"v": 1}}, {"a": {"v": 1}}, {"e": 1}, _full(1), _full("x"), _full(True)]
+S_REFNODES = [("root", ("properties", q, "properties", p)) for q in "ab" for p in "vw"] + [
+    ("root", ("properties", "d")), ("root", ("properties", "e")), ("ax", ("definitions", "u"))]
+S_POS = [("root", ()), ("root", ("properties", "a")), ("root", ("properties", "b")), ("root", ("definitions", "t")),
+         ("ax", ()), ("ax", ("definitions", "t")), ("bx", ()), ("bx", ("definitions", "t"))]
+S_IDVALS = ["a/", "b/", S_URL + "a/", S_URL + "b/", "x.json", DOC_URLS["ax"], DOC_URLS["bx"]]
+
+
 def observe_world(d, world, instances, mode):
     """The observations for `instances`, validated in this order by ONE validator whose resolver is built for
     the world (a fresh resolver per instance costs five times as much; the unedited and the edited world go
     through the same sequence, and a replay file holds the sequence up to the differing instance).
-    mode 'store': the other document is in the resolver's store; 'served': a handler serves it.  No other
-    URL can be retrieved in either mode."""
+    mode 'store': the documents other than the root are in the resolver's store (under DOC_URLS); 'served':
+    a handler serves them.  No other URL can be retrieved in either mode."""
     cls = _e1.CLS[d]
     world = copy.deepcopy(world)
+    docs = dict((DOC_URLS[k], doc) for k, doc in world.items() if k != "root")
 
     def handler(uri):
-        if mode == "served" and uri == W_OTHER:
-            return copy.deepcopy(world["other"])
+        if mode == "served":
+            return copy.deepcopy(docs[uri])
         raise KeyError(uri)
-    store = {W_OTHER: world["other"]} if mode == "store" else {}
+    store = docs if mode == "store" else {}
     try:
         r = RefResolver.from_schema(world["root"], id_of=cls.ID_OF, store=store,
                                     handlers={"http": handler, "https": handler})
@@ -374,6 +419,65 @@ def observe_world(d, world, instances, mode):
     return out
 
 
+# ---- pre-histories: the same schema OBJECT is first used by validators of other drafts ----------------------------
+
+F_ROOT = "file:///c10-nonexistent/root.json"     # nothing can be retrieved from it (and nothing goes to a network)
+PRE_INSTS = [[0, "a"], {"a": 0}]
+
+
+def others(d):
+    return [a for a in _e1.DRAFTS if a != d]
+
+
+def histories(d, depth):
+    """All sequences without repetition of the other drafts, of length 0..depth (shortest first)."""
+    out, layer = [[]], [[]]
+    for _ in range(depth):
+        layer = [h + [a] for h in layer for a in others(d) if a not in h]
+        out += layer
+    return out
+
+
+def observe_after(d, S, pre, insts, pre_insts):
+    """A fresh copy of S is given, as the very same object, to a validator of each draft of `pre` in turn (no
+    resolver passed; constructed, then `pre_insts` validated, whatever that yields or raises — S need not be a
+    schema of that draft), and only then to draft d's class, which validates `insts`."""
+    obj = copy.deepcopy(S)
+    for a in pre:
+        try:
+            va = _e1.CLS[a](obj)
+        except Exception:
+            continue
+        for x in pre_insts:
+            try:
+                list(va.iter_errors(x))
+            except Exception:
+                pass
+    try:
+        v = _e1.CLS[d](obj)
+    except Exception as e:
+        return ["EXC-at-construction " + type(e).__name__] * len(insts)
+    return [observe(d, obj, x, None, v) for x in insts]
+
+
+def pre_violation(d, S, S2, pre, insts, pre_insts, i, base, got, what):
+    return {"signature": "C10|%s|%s" % (what["kind"], what["name"]), "size": len(str(S2)) + len(str(insts[i])),
+            "case": {"draft": d, "schema": S, "edited": S2, "instance": insts[i], "instances_after": insts[:i + 1],
+                     "pre": pre, "pre_instances": pre_insts},
+            "detail": {"before": base, "after": got, "what": what,
+                       "history": "the edited schema object was first used by " + ", then ".join(
+                           "Draft%dValidator" % a for a in pre)}}
+
+
+# schemas whose references go through the URL that an identifier at the root would declare
+URL_BASES = [
+    lambda: ({"definitions": {"t": {"type": "integer"}},
+              "properties": {"a": {"$ref": "root.json#/definitions/t"}, "b": {"$ref": F_ROOT + "#/definitions/t"}}}, ()),
+]
+UURL = [{"a": 0}, {"a": "x"}, {"b": 0}, {"b": "x"}, {}]
+URL_IDVALS = [F_ROOT, F_ROOT + "#", "file:///c10-nonexistent/", "root.json"]
+
+
 def world_configs(d, tier):
     """(with_ids, declared $schema or None, document, position): one work unit each."""
     out = []
@@ -382,7 +486,8 @@ def world_configs(d, tier):
             out.append((with_ids, None, doc, pos))
     for with_ids in (True, False) if tier == "thorough" else (True,):
         for _, u in SCHEMA_IDS:
-            out.append((with_ids, u, None, None))
+            if tier == "thorough" or u.endswith("#"):
+                out.append((with_ids, u, None, None))
     return out
 
 
@@ -408,12 +513,19 @@ def plan(ctx):
         nw = len(world_configs(d, ctx.tier))
         units += [(d, "world", i, nw) for i in range(nw)]
         units += [(d, "world-ref-sibling", i, 2) for i in range(2)]
+        units += [(d, "scopes-ref-sibling", i, 2) for i in range(2)]
+        units += [(d, "scopes", i, 2) for i in range(2)]
         units += [(d, "ref-sibling", 0, 1), (d, "other-id", 0, 1), (d, "retrieved-doc", 0, 1)]
     sizes["world_schema_like_values"] = len(schemaish_values())
     sizes["world_instances"] = len(UW)
     sizes["world_insert_positions"] = len(W_POS)
     sizes["world_ref_nodes"] = len(W_REFNODES)
     sizes["schema_keyword_values"] = len(HOT["$schema"])
+    sizes["scope_world_instances"] = len(US)
+    sizes["scope_world_ref_nodes"] = len(S_REFNODES)
+    sizes["scope_world_insert_positions"] = len(S_POS)
+    sizes["pre_histories_other_id"] = len(histories(7, 3 if ctx.thorough else 2))
+    sizes["pre_history_insert_base_stride"] = PRE_STRIDE[ctx.tier]
     return {
         "units": units,
         "rule": ("[insert] base schemas (all singles of G(draft) incl. their nested slots, plus sibling groups / nested "
@@ -432,16 +544,31 @@ def plan(ctx):
                  "absolute references; pointer, plain-name, whole-document, chained and unresolvable references; "
                  "targets written in draft-specific vocabulary) x {other document in the store, served by a handler "
                  "(quick: served only for edits of the served document in the worlds that declare ids)}; one "
-                 "validator per (world, mode) validates the 9 instances in a fixed order; x "
-                 "every document root and every reference target x the same names x (the same values + 47 "
+                 "validator per (world, mode) validates the instances in a fixed order; x "
+                 "every document root and every reference target x the same names x (the same values + 53 "
                  "schema-looking values carrying id/$id (plain-name, pointer, relative, absolute) / definitions / $ref, "
                  "bare, in an object, in an array (quick: under 3 of the 11 arbitrary names and under every other "
-                 "name) + plain names for $anchor-like keywords), and $schema (8 ids) x every "
+                 "name; in the worlds without declared ids only the bare identifier-carrying objects) + plain names for $anchor-like keywords), and $schema (8 ids) x every "
                  "foreign name with a would-fail value; the same worlds (quick: those that declare ids) with every "
-                 "target already declaring each of the 8 $schema ids x names x would-fail values; 7 instances (quick: 3 "
+                 "target already declaring each of the 8 (quick: the 4 with '#') $schema ids x names x would-fail values; 8 instances (quick: 4 "
                  "for the schema-looking values); "
+                 "the worlds also hold a reference to a URL under which no document exists, and that URL is among the "
+                 "identifier values; "
+                 "[scopes] worlds in which two subschemas establish two base URIs (own id keyword; relative under a "
+                 "root id / absolute without) and the same reference texts designate different documents under each, "
+                 "and one text designates different things in the root and inside a referenced document; 6 instances "
+                 "validated by one validator (second scope first, first scope, document-internal text first, all); "
+                 "every keyword of any draft next to each of the 7 $refs, and every foreign name (other id spelling "
+                 "with the scopes' URLs) at 8 positions; store and (with root id; thorough: always) served; "
                  "plus every keyword of any draft next to a $ref (5 small bases and every $ref of the worlds), and the "
-                 "other draft's id spelling above a relative reference; edited schemas / documents the real "
+                 "other draft's id spelling above a relative reference and at the root of a schema whose references go "
+                 "through the URL it names; "
+                 "[pre-histories] the edited schema as ONE object is first given to validators of other drafts "
+                 "(constructed without resolver + instances validated), then to the observed draft's class, and must "
+                 "give the errors of the unedited schema used fresh: for the id cases every sequence without "
+                 "repetition of other drafts of length <= 2 (thorough 3); for the insert family the sequence of all "
+                 "three other drafts x every position x the first would-fail value of each name x every 4th (thorough: 2nd) "
+                 "base schema; edited schemas / documents the real "
                  "check_schema rejects are skipped; all cases distinct by construction; non-trivial = the unedited "
                  "schema rejects the instance or the inserted value is a 'would fail if active' value"),
         "bounds": dict(sizes, instances=len(U2) if ctx.thorough else len(U2[::2]) + 1, empty_family_instances=len(UE),
@@ -452,7 +579,9 @@ def plan(ctx):
                         "$schema is treated as an annotation of every draft: the validator class is chosen by the "
                         "caller, iter_errors of that class never reads it",
                         "a violation that occurs for every inserted name at one position is reported under a "
-                        "signature that names the position instead of the keyword"],
+                        "signature that names the position instead of the keyword",
+                        "pre-use by another draft's class ignores whatever that class yields or raises: the schema "
+                        "need not be valid for it"],
     }
 
 
@@ -482,11 +611,15 @@ def violation(d, S, S2, x, base, got, what, store=None):
             "detail": {"before": base, "after": got, "what": what}}
 
 
-def insert_at(acc, d, S, pos, names, tier, UQ, base, multis):
+PRE_STRIDE = {"quick": 4, "thorough": 2}   # every n-th base schema of the insert family also goes through the pre-history
+
+
+def insert_at(acc, d, S, pos, names, tier, UQ, base, multis, pre=None):
     """All names x values (and the combinations) at one position of one schema.  If *every* name changes the
     errors there, the name is not what matters: the signature names the position instead."""
     node_empty = _get(S, pos) == {}
     tried, hit, found, single_hits = set(), set(), [], set()
+    pre_tried, pre_hit, pre_found = set(), set(), []
     for name in names:
         if consulted(d, S, pos, name):
             continue
@@ -507,15 +640,28 @@ def insert_at(acc, d, S, pos, names, tier, UQ, base, multis):
                     hit.add(name)
                     single_hits.add((name, i))
                     found.append(violation(d, S, S2, x, b, got, {"kind": "foreign", "name": name, "hot": val in hot}))
+            if pre and hot and val == hot[0]:
+                # the same edited schema, as one object, used by the other drafts' classes first
+                for i, (got, b) in enumerate(zip(observe_after(d, S2, pre, UQ, PRE_INSTS), base)):
+                    acc.count(got == b, b, True)
+                    if got != b and (name, i) not in single_hits:
+                        pre_hit.add(name)
+                        pre_found.append(pre_violation(d, S, S2, pre, UQ, PRE_INSTS, i, b, got, {
+                            "kind": "foreign-after-use-by-other-drafts", "name": name, "hot": True}))
+                pre_tried.add(name)
+    kw, _ = holder(pos)
+    where = "at-the-root"
+    if pos:
+        where = ("in-empty-subschema-of-" if node_empty else "in-subschema-of-") + str(kw)
     if tried and hit == tried and len(tried) > 3:
-        kw, _ = holder(pos)
-        where = "at-the-root"
-        if pos:
-            where = ("in-empty-subschema-of-" if node_empty else "in-subschema-of-") + str(kw)
         for v in found:
             v["detail"]["what"]["kind"] = "any-foreign-keyword"
             v["signature"] = "C10|any-foreign-keyword|%s" % where
-    acc.viol += found
+    if pre_tried and pre_hit == pre_tried and len(pre_tried) > 3:
+        for v in pre_found:
+            v["detail"]["what"]["kind"] = "any-foreign-keyword-after-use-by-other-drafts"
+            v["signature"] = "C10|any-foreign-keyword-after-use-by-other-drafts|%s" % where
+    acc.viol += found + pre_found
     for kind, label, extra in multis:
         S2 = insert(S, pos, extra)
         if S2 is None or not _e1.accepted(d, S2):
@@ -548,8 +694,12 @@ def run_insert(acc, d, shard, n, ctx):
         if not isinstance(S, dict):
             continue
         base = [observe(d, S, x) for x in UQ]
+        pre = others(d) if bi % PRE_STRIDE[ctx.tier] == 0 else None
         for pos in positions(S):
-            insert_at(acc, d, S, pos, names, ctx.tier, UQ, base, multis)
+            insert_at(acc, d, S, pos, names, ctx.tier, UQ, base, multis, pre)
+        if pre:
+            acc.outcomes["bases-also-used-by-the-other-drafts-first"] = acc.outcomes.get(
+                "bases-also-used-by-the-other-drafts-first", 0) + 1
         if len(acc.samples) < 1 and bi % 53 == 11:
             acc.samples.append({"draft": d, "schema": S, "inserted": {"const": "zz"}, "at": "every position"})
 
@@ -652,6 +802,8 @@ def run_world(acc, d, idx, ctx):
             if name in ARBITRARY and name not in ARBITRARY_CARRIERS and not ctx.thorough:
                 continue
             for tag, val in schemaish_values():
+                if not with_ids and not ctx.thorough and not (isinstance(val, dict) and ("$id" in val or "id" in val)):
+                    continue        # quick: without declared ids only the bare objects that carry an identifier
                 run(doc0, pos0, {name: val}, {"kind": "foreign-value-that-looks-like-a-schema", "name": tag,
                                               "under": name}, True, UW if ctx.thorough else UW_S)
         for name in names:
@@ -683,27 +835,132 @@ def run_world(acc, d, idx, ctx):
                                           "name": vocab_label(label, m, extra), "inserted": label}, True)
 
 
-def run_world_ref_sibling(acc, d, idx, ctx):
-    with_ids = bool(idx)
+def ref_siblings(acc, d, world, refnodes, insts, modes, tier, with_ids):
+    """Every keyword of any draft next to each `$ref` of a world.  If every name (other than the draft's own
+    identifier, F11) changes the errors at one `$ref`, the signature says so instead of naming the keyword."""
     idk = "id" if d <= 4 else "$id"
-    world = make_world(d, with_ids)
-    base = observe_world(d, world, UW, "store")
-    for doc, pos in W_REFNODES:
+    base = dict((m, observe_world(d, world, insts, m)) for m in modes)
+    for doc, pos in refnodes:
+        tried, hit, found = set(), set(), []
         for name in sorted(ALL - {"$ref"}):
             if consulted(d, world[doc], pos, name):
                 continue    # Draft 3 `required` is read lexically by the parent `properties`
-            for val in values_for(name, ctx.tier):
+            for val in values_for(name, tier):
                 w2 = copy.deepcopy(world)
                 _get(w2[doc], pos)[name] = copy.deepcopy(val)
                 if not _e1.accepted(d, w2[doc]):
                     acc.skipped += 1
                     continue
-                for i, (got, b) in enumerate(zip(observe_world(d, w2, UW, "store"), base)):
-                    acc.count(got == b, b, True)
-                    if got != b:
-                        what = {"kind": "sibling-of-ref-own-id" if name == idk else "sibling-of-ref", "name": name,
-                                "doc": doc, "pos": list(pos)}
-                        acc.viol.append(world_violation(d, world, w2, UW, i, "store", b, got, what, with_ids, None))
+                if name != idk:
+                    tried.add(name)
+                for m in modes:
+                    for i, (got, b) in enumerate(zip(observe_world(d, w2, insts, m), base[m])):
+                        acc.count(got == b, b, True)
+                        if got != b:
+                            what = {"kind": "sibling-of-ref-own-id" if name == idk else "sibling-of-ref", "name": name,
+                                    "doc": doc, "pos": list(pos)}
+                            v = world_violation(d, world, w2, insts, i, m, b, got, what, with_ids, None)
+                            if name == idk:
+                                acc.viol.append(v)
+                            else:
+                                hit.add(name)
+                                found.append(v)
+        if tried and hit == tried and len(tried) > 3:
+            for v in found:
+                v["detail"]["what"]["kind"] = "any-foreign-keyword"
+                v["signature"] = "C10|any-foreign-keyword|next-to-$ref"
+        acc.viol += found
+
+
+def run_world_ref_sibling(acc, d, idx, ctx):
+    with_ids = bool(idx)
+    ref_siblings(acc, d, make_world(d, with_ids), W_REFNODES, UW, ("store",), ctx.tier, with_ids)
+
+
+def scope_modes(with_root_id, ctx):
+    return ("store", "served") if with_root_id or ctx.thorough else ("store",)
+
+
+def run_scopes_ref_sibling(acc, d, idx, ctx):
+    with_root_id = bool(idx)
+    world = make_scopes(d, with_root_id)
+    if not all(_e1.accepted(d, doc) for doc in world.values()):
+        raise AssertionError("a base world is not a valid schema: %r" % (world,))
+    for b in observe_world(d, world, US, "store"):
+        k = "scope-world-base-" + ("errors" if b and isinstance(b, list) else "valid" if b == [] else str(b))
+        acc.outcomes[k] = acc.outcomes.get(k, 0) + 1
+    ref_siblings(acc, d, world, S_REFNODES, US, scope_modes(with_root_id, ctx), ctx.tier, with_root_id)
+    acc.samples.append({"draft": d, "world": world, "inserted_next_to_each_ref": "every keyword of any draft"})
+
+
+def run_scopes(acc, d, idx, ctx):
+    """Foreign keywords (the other id spelling with the URLs of the scopes among its values) at the roots, the
+    scope-establishing subschemas and the reference targets of a scope world."""
+    with_root_id = bool(idx)
+    world = make_scopes(d, with_root_id)
+    modes = scope_modes(with_root_id, ctx)
+    base = dict((m, observe_world(d, world, US, m)) for m in modes)
+    other_id = "$id" if d <= 4 else "id"
+    for doc, pos in S_POS:
+        for name in foreign_names(d):
+            if consulted(d, world[doc], pos, name):
+                continue
+            vals = values_for(name, ctx.tier) + (S_IDVALS if name == other_id else [])
+            if ctx.thorough:
+                vals = vals + [{sp: idv, "type": "array"} for sp in ("$id", "id") for idv in S_IDVALS]
+            for val in dedupe(vals):
+                w2 = world_edit(world, doc, pos, {name: val})
+                if w2 is None:
+                    continue
+                if not _e1.accepted(d, w2[doc]):
+                    acc.skipped += 1
+                    continue
+                for m in modes:
+                    for i, (got, b) in enumerate(zip(observe_world(d, w2, US, m), base[m])):
+                        acc.count(got == b, b, True)
+                        if got != b:
+                            what = {"kind": "other-draft-id-in-scope-world" if name == other_id else
+                                    "foreign-in-scope-world", "name": name, "doc": doc, "pos": list(pos)}
+                            acc.viol.append(world_violation(d, world, w2, US, i, m, b, got, what, with_root_id, None))
+
+
+def run_other_id(acc, d, ctx):
+    """The other drafts' spelling of the identifier, above a relative reference and at the root of a schema whose
+    references go through the URL it would declare; fresh, and after every pre-history of uses of the same
+    schema object by other drafts' classes."""
+    other = "$id" if d <= 4 else "id"
+    hs = histories(d, 3 if ctx.thorough else 2)
+    for mk, insts, vals in [(mk, UID, HOT["id"] + ["", "#frag", "urn:x", 1, None, {"a": 1}]) for mk in ID_BASES] + [
+            (mk, UURL, URL_IDVALS + HOT["id"]) for mk in URL_BASES]:
+        S, pos = mk()
+        if not _e1.accepted(d, S):
+            continue
+        base = [observe(d, S, x) for x in insts]
+        for x, b in zip(insts, base):
+            k = "other-id-base-" + (b if isinstance(b, str) else "errors" if b else "valid")
+            acc.outcomes[k] = acc.outcomes.get(k, 0) + 1
+        for val in vals:
+            for p in dedupe([list(pos), []]):
+                S2 = insert(S, tuple(p), {other: val})
+                if S2 is None or not _e1.accepted(d, S2):
+                    continue
+                fresh_hits = set()
+                for pre in hs:
+                    got_all = observe_after(d, S2, pre, insts, insts) if pre else [observe(d, S2, x) for x in insts]
+                    for i, (got, b) in enumerate(zip(got_all, base)):
+                        acc.count(got == b, b, True)
+                        if got == b:
+                            continue
+                        if not pre:
+                            fresh_hits.add(i)
+                            acc.viol.append(violation(d, S, S2, insts[i], b, got,
+                                                      {"kind": "other-draft-id", "name": other, "hot": True}))
+                        elif i not in fresh_hits:
+                            acc.viol.append(pre_violation(d, S, S2, pre, insts, insts, i, b, got, {
+                                "kind": "other-draft-id-after-use-by-other-drafts", "name": other}))
+    acc.outcomes["pre-histories-per-edited-schema"] = len(hs)
+    acc.samples.append({"draft": d, "schema": URL_BASES[0]()[0], "inserted": {other: F_ROOT},
+                        "pre_histories": hs})
 
 
 def run_unit(unit, ctx):
@@ -720,6 +977,15 @@ def run_unit(unit, ctx):
         return acc.result()
     if kind == "world-ref-sibling":
         run_world_ref_sibling(acc, d, shard, ctx)
+        return acc.result()
+    if kind == "scopes-ref-sibling":
+        run_scopes_ref_sibling(acc, d, shard, ctx)
+        return acc.result()
+    if kind == "scopes":
+        run_scopes(acc, d, shard, ctx)
+        return acc.result()
+    if kind == "other-id":
+        run_other_id(acc, d, ctx)
         return acc.result()
     ev = nt = skipped = 0
     viol, samples, outcomes = [], [], {}
@@ -782,20 +1048,7 @@ def run_unit(unit, ctx):
                                  "detail": {"before": b, "after": got}})
         samples.append({"draft": d, "schema": S, "retrieved_document": doc, "inserted": edits[0][0]})
     else:
-        other = "$id" if d <= 4 else "id"
-        for mk in ID_BASES:
-            S, pos = mk()
-            if not _e1.accepted(d, S):
-                continue
-            base = [observe(d, S, x) for x in UID]
-            for val in HOT["id"] + ["", "#frag", "urn:x", 1, None, {"a": 1}]:
-                for p in (pos, ()):
-                    S2 = insert(S, p, {other: val})
-                    if S2 is None or not _e1.accepted(d, S2):
-                        continue
-                    for x, b in zip(UID, base):
-                        compare(S, S2, x, b, {"kind": "other-draft-id", "name": other, "hot": True})
-        samples.append({"draft": d, "schema": ID_BASES[0]()[0], "inserted": {other: "http://other.invalid/x/"}})
+        raise KeyError(kind)
     return {"evaluations": ev, "nontrivial": nt, "violations": viol, "samples": samples, "outcomes": outcomes,
             "counters": {"edited_schemas_rejected_by_check_schema": skipped}}
 
@@ -852,6 +1105,11 @@ def replay(case, ctx):
     if "served_before" in case:
         a = observe_served(d, case["schema"], case["served_before"], case["instance"])
         b = observe_served(d, case["schema"], case["served_after"], case["instance"])
+        return {"reproduced": a != b, "before": a, "after": b}
+    if "pre" in case:
+        a = observe(d, case["schema"], case["instance"])
+        insts = case.get("instances_after") or [case["instance"]]
+        b = observe_after(d, case["edited"], case["pre"], insts, case["pre_instances"])[-1]
         return {"reproduced": a != b, "before": a, "after": b}
     store = case.get("store")
     a = observe(d, case["schema"], case["instance"], store)
